@@ -770,6 +770,31 @@ func checkViews(c viewCase) *vlib.Failure {
 		}
 		apply() // net effect: applied once
 	}
+	// Clone is deep here too: a clone of the row-stored alignment does not write through to the column
+	// store its rows were views of, whatever is done to it
+	if nr > 0 && c.Cols > 0 {
+		bl, bq := letters()
+		before := spans()
+		cl := m.Clone().(*multi.Multi)
+		cl.RevComp()
+		if cl.Rows() > 0 && cl.Row(0).Len() > 0 {
+			r0 := cl.Row(0)
+			pl := sm.PairedLetters(c.Alpha)
+			r0.Set(r0.Start(), alphabet.QLetter{L: alphabet.Letter(pl[len(pl)-1]), Q: 1})
+			r0.Set(r0.End()-1, alphabet.QLetter{L: alphabet.Letter(pl[0]), Q: 2})
+		}
+		al, aq := letters()
+		for i := range bl {
+			if al[i] != bl[i] || fmt.Sprint(aq[i]) != fmt.Sprint(bq[i]) {
+				return vlib.Failf("clone-not-independent", "%s: after RevComp and Set on a clone, row %d of the original reads %q %v, it read %q %v", desc, i, al[i], aq[i], bl[i], bq[i])
+			}
+		}
+		for i, sp := range spans() {
+			if sp != before[i] {
+				return vlib.Failf("clone-not-independent", "%s: after RevComp on a clone, row %d of the original covers [%d,%d), it covered [%d,%d)", desc, i, sp.s, sp.e, before[i].s, before[i].e)
+			}
+		}
+	}
 	return nil
 }
 
